@@ -62,7 +62,9 @@ Definition n_unfiltered (l : list path) : N := N.of_nat (length (unfiltered l)).
 Inductive tabop :=
 | TStart (f : fam)
 | TInsert (f : fam) (net peer pid : N) (filtered : bool)
-| TEnd (f : fam).
+| TEnd (f : fam)
+| TRemove (f : fam) (net peer pid : N)      (* Table::remove: a withdrawal *)
+| TDrop (f : fam) (peer : N).               (* Table::drop: the peer's session ended *)
 
 Inductive tabres :=
 | RUnit
@@ -102,11 +104,54 @@ Definition t_end (t : table) (f : fam) : table * list (N * N) :=
   | None => (t, [])
   end.
 
+Definition d_remove (l : list (N * list path)) (n : N) : list (N * list path) :=
+  filter (fun e => negb (fst e =? n)) l.
+
+(* Table::remove (slice).  UNFIXED_MARK *)
+Definition t_remove (t : table) (f : fam) (net peer pid : N) : table * tabres :=
+  match t_get t f with
+  | None => (t, RNoChange)
+  | Some r =>
+      match d_get (rf_dests r) net with
+      | None => (t, RNoChange)
+      | Some old =>
+          match filter (same_path peer pid) old with
+          | [] => (t, RNoChange)
+          | removed :: _ =>
+              let kept := filter (fun p => negb (same_path peer pid p)) old in
+              let dests := match kept with [] => d_remove (rf_dests r) net | _ => d_set (rf_dests r) net kept end in
+              let t' := t_set t f {| rf_deferring := rf_deferring r; rf_dests := dests |} in
+              if pa_filtered removed then (t', RNoChange)
+              else (t', RChanged net (n_unfiltered kept))
+          end
+      end
+  end.
+
+(* Table::drop (slice): one change per destination that loses an unfiltered path of the peer *)
+Definition t_drop (t : table) (f : fam) (peer : N) : table * tabres :=
+  match t_get t f with
+  | None => (t, RChanges [])
+  | Some r =>
+      let of_peer := fun p : path => pa_peer p =? peer in
+      let changes :=
+        flat_map (fun e => if existsb (fun p => of_peer p && negb (pa_filtered p)) (snd e)
+                           then [(fst e, n_unfiltered (filter (fun p => negb (of_peer p)) (snd e)))] else [])
+                 (rf_dests r) in
+      let dests :=
+        flat_map (fun e => match filter (fun p => negb (of_peer p)) (snd e) with
+                           | [] => []
+                           | l => [(fst e, l)]
+                           end) (rf_dests r) in
+      (t_set t f {| rf_deferring := rf_deferring r; rf_dests := dests |}, RChanges changes)
+  end.
+
 Definition t_step (t : table) (o : tabop) : table * tabres :=
   match o with
   | TStart f => (t_start t f, RUnit)
   | TInsert f net peer pid filtered => t_insert t f net peer pid filtered
   | TEnd f => let '(t', l) := t_end t f in (t', RChanges l)
+  | TRemove f net peer pid => t_remove t f net peer pid
+  | TDrop f peer => t_drop t f peer
   end.
 
 Definition t_deferring (t : table) (f : fam) : bool :=
@@ -204,7 +249,7 @@ Fixpoint observe_tab (t : table) (ops : list tabop) : list val :=
   match ops with
   | [] => []
   | o :: r => let '(t', res) := t_step t o in
-              VL [v_tabres res; VB (match o with TStart f | TInsert f _ _ _ _ | TEnd f => t_deferring t' f end)]
+              VL [v_tabres res; VB (match o with TStart f | TInsert f _ _ _ _ | TEnd f | TRemove f _ _ _ | TDrop f _ => t_deferring t' f end)]
                 :: observe_tab t' r
   end.
 
